@@ -128,6 +128,10 @@ func evalC04(c c04Case, o *Obs) error {
 	}
 	ni := c.Net
 	if c.SetNet >= 0 {
+		if c.Seed[0]%2 == 1 {
+			_ = k.String() // printed on its first network, then moved
+			o.Class("C04:printed-before-setnet")
+		}
 		k.SetNet(nets[c.SetNet].Params)
 		r = r.withNet(c.SetNet)
 		ni = c.SetNet
